@@ -472,34 +472,12 @@ def _lean_case(case):
     any tiling of [s,e) by valid slabs has at least N(s,e) pieces, N = the recurrence the code is proved to follow
     (`ensures:pieces-follow-the-optimal-recurrence`).  Specification-side mathematics only; a failure here is never a
     violation of the property by /repo (status unknown => undecided)."""
-    import os
-    import re
-    import shutil
-    import subprocess
-    import time
+    from vlib.lean import lean_obligation
     func = "lemma:minimal-slab-decomposition"
-    here = os.path.dirname(os.path.dirname(os.path.abspath(__file__)))
-    src = os.path.join(here, "lemmas", "C15Minimality.lean")
-    ob = f"{func}/counting-step:any-tiling-has-at-least-as-many-pieces-as-the-recurrence[{case}]"
-    text = ("Lean 4 theorem C15.minimality_top: Strides S -> Tiling S n 0 s e k -> N S n 0 s e <= k  (with the arithmetic facts (a), (b) "
-            "re-proved inside Lean; no sorry; axioms restricted to propext / Classical.choice / Quot.sound)")
-    lean = shutil.which("lean")
-    if lean is None or not os.path.exists(src):
-        return [result(ob, func, "unknown", backend="lean4 (not found)", case=case, text=text)]
-    body = open(src).read()
-    t0 = time.time()
-    probe = body + "\n#print axioms C15.minimality_top\n#print axioms C15.minimality\n"
-    try:
-        r = subprocess.run([lean, "--stdin"], input=probe, capture_output=True, text=True, timeout=840, cwd=os.path.dirname(src))
-        outp = r.stdout + r.stderr
-        ok = r.returncode == 0 and "error" not in outp and "sorry" not in body and "sorryAx" not in outp
-        axs = set(re.findall(r"[A-Za-z_.]+", " ".join(re.findall(r"depends on axioms: \[([^\]]*)\]", outp))))
-        ok = ok and outp.count("depends on axioms") + outp.count("does not depend on any axioms") == 2 and axs <= {"propext", "Classical.choice", "Quot.sound"}
-        ver = subprocess.run([lean, "--version"], capture_output=True, text=True).stdout.strip()[:60]
-    except BaseException as ex:  # noqa
-        return [result(ob, func, "unknown", backend="lean4", case=case, text=text + f" — lean did not finish: {ex!r}"[:300], time_s=time.time() - t0)]
-    return [result(ob, func, "discharged" if ok else "unknown", backend=ver or "lean4", case=case, time_s=time.time() - t0,
-                   text=text if ok else text + " — NOT accepted: " + outp[-600:])]
+    return [lean_obligation(f"{func}/counting-step:any-tiling-has-at-least-as-many-pieces-as-the-recurrence[{case}]", func, "C15Minimality.lean",
+                            ["C15.minimality_top", "C15.minimality"], case=case,
+                            text="Lean 4 theorem C15.minimality_top: Strides S -> Tiling S n 0 s e k -> N S n 0 s e <= k  (with the arithmetic facts (a), (b) "
+                                 "re-proved inside Lean; no sorry; axioms restricted to propext / Classical.choice / Quot.sound)")]
 
 
 def run_case(case, tier, seed):
